@@ -17,7 +17,7 @@ func init() {
 	register(&Property{
 		ID: "C03",
 		Rule: "sessions of 50..500 numbered lines over 6 harness-only verbs plus PING, PRIVMSG, NOTICE, PONG, MODE (verbs with built-in handlers or special parsing) with 1..4 foreground and 0..2 background handlers per verb; handler durations drawn from {return, Gosched storm, 50..500us sleep, wait until the receive " +
-			"goroutine has logged the next line}; byte stream cut per byte / PRNG sizes / one segment / inside CRLF, lines of 4094..4098 and 20000 bytes; a 001 welcome at a PRNG position; ended by drain+Close, abrupt Close, EOF or read error " +
+			"goroutine has logged the next line}; byte stream cut per byte / PRNG sizes / one segment / inside CRLF, lines of 4094..4098, 20000 and 510..514 bytes; a 001 welcome at a PRNG position; ended by drain+Close, abrupt Close, EOF or read error " +
 			"with handlers still running; GOMAXPROCS 1,2,4,16 under the race detector. Offline oracle over the ENTER/EXIT event log: open foreground invocations always belong to one line, dispatched sequence numbers strictly increase " +
 			"(equal to what was sent when the session was drained), every handler of a verb ran exactly once per dispatched line, no handler of a later line enters before all foreground handlers of earlier lines exited, CONNECTED placement " +
 			"and nick, DISCONNECTED after every foreground exit. A session is non-trivial when >= 2 handlers of the same line were open at once and >= 1 line crossed a segment boundary; Plus sessions inside a testing/synctest bubble whose handlers take 1 ms .. 1 h of virtual time (a dispatch that stops waiting after some timeout must not let the next line start). Supervised-reconnect sessions: a supervisor goroutine calls Connect from the moment the link drops (EOF, read error, write error, Close) while a foreground handler of the old connection is still running; handlers of the two connections' lines never overlap, each connection keeps its order, DISCONNECTED comes after the old connection's last handler returned. EOF / read-error endings (also of drained sessions, event loop idle) are preceded by an unterminated fragment of one more line, which must never be delivered. distinct_nontrivial = distinct " +
@@ -237,7 +237,8 @@ func runC03(c *Ctx) {
 				l = fmt.Sprintf("%s %d", verb, i)
 			}
 			if longLines && r.Intn(12) == 0 {
-				total := []int{4094, 4095, 4096, 4097, 4098, 20000}[r.Intn(6)]
+				// around the read buffer's 4096 bytes and around the 512 bytes (CR-LF included) of RFC 1459
+				total := []int{4094, 4095, 4096, 4097, 4098, 20000, 510, 511, 512, 513, 514}[r.Intn(11)]
 				pad := total - len(l) - 2 - 2 // " :" and CRLF
 				if pad > 0 {
 					l += " :" + strings.Repeat("p", pad)
